@@ -90,6 +90,9 @@ class ChargingBase(VehicleState):
         elif not base.membership.grant_access_to_membership(vehicle.membership):
             msg = f"vehicle doesn't have access to base; context: {context}"
             return SimulationStateError(msg), None
+        elif not station.membership.grant_access_to_membership(vehicle.membership):
+            msg = f"vehicle doesn't have access to station {station.id} at base; context: {context}"
+            return SimulationStateError(msg), None
         else:
             # actually claim the parking stall
             updated_base = base.checkout_stall()
